@@ -163,6 +163,20 @@ def analyse_loop(ctx, f, loop: ast.While) -> Tuple[bool, str, dict]:
                         if not reaches(t, H):
                             G.append(cfg.edge_node(st, "false"))
                             facts.append(f"search restarts strictly after the last match ({l.id} = ....find(_, {l.id} + 1))")
+    # search-advance through the raising twin: `r = d.index(x, S)` inside a try whose ValueError handler leaves the loop;
+    # r >= S whenever index returns, and the next start is r + k (k > 0) on every way back to the header
+    for n, st in cfg.stmt.items():
+        if id(st) not in inner_nodes or not isinstance(st, ast.Try):
+            continue
+        hs = [h for h in st.handlers if h.type is None or dotted(h.type) in ("ValueError", "Exception") or
+              (isinstance(h.type, ast.Tuple) and any(dotted(e) in ("ValueError", "Exception") for e in h.type.elts))]
+        if not hs or any(reaches(cfg.node(h), H) for h in hs):
+            continue
+        for b in st.body:
+            if isinstance(b, ast.Assign) and isinstance(b.targets[0], ast.Name) and isinstance(b.value, ast.Call) and isinstance(b.value.func, ast.Attribute) \
+                    and b.value.func.attr == "index" and len(b.value.args) >= 2 and _start_advances(cfg, reaches, loop, b, b.targets[0].id, H):
+                G.append(cfg.node(b))
+                facts.append(f"search restarts strictly after the last match ({b.targets[0].id} = ....index(_, <start>), ValueError leaves the loop)")
     # search loop driven by its header: `while p != -1 and ...:` with every rebinding of p inside the loop of the form
     # p = <seq>.find(x, p + 1) - each cycle restarts strictly after the last match
     for cj in conjuncts(nnf(loop.test)):
@@ -279,6 +293,24 @@ def _positive(e: ast.AST) -> bool:
         return const_eval(e) > 0
     except (NotConst, TypeError):
         return False
+
+
+def _start_advances(cfg, reaches, loop: ast.AST, stmt: ast.Assign, result: str, H) -> bool:
+    """the start argument of the search call in `stmt` is `result + k` (k > 0), or a local whose every rebinding inside
+    the loop is `result + k` and lies on every way from the search back to the loop header"""
+    s = stmt.value.args[1]
+    if isinstance(s, ast.BinOp) and isinstance(s.op, ast.Add) and dotted(s.left) == result and _positive(s.right):
+        return True
+    if not isinstance(s, ast.Name):
+        return False
+    defs = [n for n in walk_no_nested(loop) if isinstance(n, (ast.Assign, ast.AugAssign)) and dotted(n.targets[0] if isinstance(n, ast.Assign) else n.target) == s.id]
+    if not defs:
+        return False
+    for d in defs:
+        v = d.value if isinstance(d, ast.Assign) else None
+        if not (isinstance(v, ast.BinOp) and isinstance(v.op, ast.Add) and dotted(v.left) == result and _positive(v.right)):
+            return False
+    return not reaches(cfg.node(stmt), H, avoiding=[cfg.node(d) for d in defs])
 
 
 def _find_advance(loop: ast.AST, name: str) -> bool:
